@@ -155,9 +155,11 @@ pub(super) fn animate<T: Component>(
         // from the `timeline` struct anymore after the `update`.
         let timeline_delay = timeline.delay();
         let timeline_duration = timeline.duration();
+        let mut target_updated = false;
         if animator.state == AnimationState::Playing {
             if let Ok(mut target) = targets.get_mut(entity) {
                 timeline.update(&mut target, position_secs);
+                target_updated = true;
             }
         }
         let mut state_changed = false;
@@ -172,6 +174,15 @@ pub(super) fn animate<T: Component>(
         if position_secs >= timeline_duration && animator.state != AnimationState::Ended {
             animator.state = AnimationState::Ended;
             state_changed = true;
+            // A long frame can carry the position past the end without the animator ever having
+            // been observed as `Playing`; the target must still land on the final values.
+            if !target_updated {
+                if let (Some(timeline), Ok(mut target)) =
+                    (animator.timeline.as_ref(), targets.get_mut(entity))
+                {
+                    timeline.update(&mut target, position_secs);
+                }
+            }
         }
         if animator.state != AnimationState::Ended {
             animator.timeline_position += time.delta();
